@@ -23,7 +23,9 @@ var plainChars = []string{"a", "b", "c", "a", "b", "c", "a", "b", "-", "A", "B",
 var otherEscapes = []string{`\x61`, `\x62`, `a`, `c`, `\cJ`, `\cj`, `\0`, `\t`, `\v`, `\f`, `\r`, `\x0A`, `\u000a`,
 	`\.`, `\-`, `\*`, `\/`, `\$`, `\|`, `\(`, `\)`, `\[`, `\]`, `\{`, `\}`, `\\`, `\^`, `\+`, `\?`, `\x2d`, `é`, `\xE9`, `\cI`, `\cP`, `\cp`, `\cZ`, `\cA`, `\x1f`, `\x7F`,
 	// IdentityEscape of characters outside ASCII that are not IdentifierPart (15.10.1)
-	"\\\u2014", "\\\u20ac", "\\\u00a7", "\u2014"}
+	"\\\u2014", "\\\u20ac", "\\\u00a7", "\u2014",
+	// an escaped line terminator (constructor route only): matches that line terminator, and the source has to say so
+	"\\\n", "\\\r", "\\\u2028"}
 
 var classEscapes = []string{`\d`, `\D`, `\w`, `\W`, `\s`, `\S`}
 
